@@ -26,7 +26,7 @@
 (* not multiply the histories.                                                           *)
 EXTENDS Table, Json
 
-CONSTANTS Mode, MaxRagged, MaxRaggedInt, MaxExtends, PoolOrder, MaxMut, MaxObs
+CONSTANTS Mode, MaxRagged, MaxRaggedInt, MaxExtends, PoolOrder, MaxMut, MaxObs, MaxConds
 
 N_A    == << 65 >>
 N_a    == << 97 >>
@@ -81,16 +81,19 @@ PutLens(n, kind) ==
     ELSE IF \A m \in DOMAIN holder : holder[m].len = 1 THEN {1} ELSE {}
 
 GridNext ==
-    \/ /\ phase = "build" /\ NumRenders = 0 /\ stated = Unstated
+    \/ /\ phase = "build" /\ NumRenders = 0 /\ stated = Unstated /\ conds = {}
        /\ \E n \in PutNames : \E kind \in PutKinds : \E len \in PutLens(n, kind) : Put(n, len, kind)
     \/ /\ phase = "build" /\ NumRenders = 0
        /\ \A n \in DOMAIN holder : holder[n].kind = "num"
        /\ NumExtends(puts) = 0
        /\ \A n \in DOMAIN holder : holder[n].len = 1
-       /\ \/ stated = Unstated /\ \E h \in Horizons : StateHorizon("block", h)   \* the block states the horizon
+       /\ \/ /\ stated = Unstated /\ conds = {} /\ puts # << >>            \* the block gives the last variable its initial value
+             /\ Condition(LastPut.name, FALSE)
+          \/ /\ stated = Unstated /\ ~(conds = {} /\ puts # << >>)
+             /\ \E h \in Horizons : StateHorizon("block", h)              \* the block states the horizon
           \/ stated # Unstated /\ Solve({})
     \/ /\ NumRenders < Len(RequiredRenders)
-       /\ ~(phase = "build" /\ stated # Unstated)          \* a stated horizon is followed by the Solve
+       /\ ~(phase = "build" /\ (stated # Unstated \/ conds # {}))   \* a block being written is followed by the Solve
        /\ Render(RequiredRenders[NumRenders + 1])
 
 GridTerminal == NumRenders > 0 /\ NumRenders = Len(RequiredRenders)
@@ -103,19 +106,26 @@ RenderFmt(j) ==
     LET f == FormatSeq[((j - 1) % Len(FormatSeq)) + 1]
     IN IF f \in IntOnlyFormats /\ ~AllInt(holder) THEN FormatSeq[1] ELSE f
 
-(* A solve is prepared by stating the horizon nowhere, in the block, on the solver, or in   *)
-(* both (block first); once a horizon is stated the next steps are the rest of that and the  *)
-(* Solve, so that the statements do not interleave with the other calls.                     *)
+(* A solve is prepared by writing the block: at most MaxConds initial conditions - on a     *)
+(* stored name (plain or with the space), or on a name of the pool that has no equation -,   *)
+(* then the horizon stated nowhere, in the block, on the solver, or in both (block first;    *)
+(* with a condition: in the block).  Once the preparation has begun the next steps are the   *)
+(* rest of it and the Solve, so that it does not interleave with the other calls.            *)
 CanSolve == /\ phase = "build" /\ NumMut < MaxMut /\ NumObs < MaxObs
             /\ \A n \in DOMAIN holder : holder[n].kind = "num" /\ holder[n].len = 1
-Configuring == phase = "build" /\ stated # Unstated
+Configuring == phase = "build" /\ (stated # Unstated \/ conds # {})
+CondChoices == { c \in [name : Names, sp : BOOLEAN] : c.sp => c.name \in DOMAIN holder } \ conds
 
 EditNext ==
     \/ /\ Configuring
-       /\ \/ ~stated.solver.is /\ \E h \in Horizons : StateHorizon("solver", h)
-          \/ Solve({})
+       /\ \/ /\ stated = Unstated /\ Cardinality(conds) < MaxConds
+             /\ \E c \in CondChoices : Condition(c.name, c.sp)
+          \/ stated = Unstated /\ \E h \in Horizons : StateHorizon("block", h)
+          \/ conds = {} /\ ~stated.solver.is /\ \E h \in Horizons : StateHorizon("solver", h)
+          \/ ~(conds # {} /\ stated = Unstated) /\ Solve({})
     \/ /\ ~Configuring /\ CanSolve
-       /\ \/ \E h \in Horizons : StateHorizon("block", h) \/ StateHorizon("solver", h)
+       /\ \/ MaxConds > 0 /\ \E c \in CondChoices : Condition(c.name, c.sp)
+          \/ \E h \in Horizons : StateHorizon("block", h) \/ StateHorizon("solver", h)
           \/ Solve({})
     \/ /\ ~Configuring /\ NumMut < MaxMut /\ NumObs < MaxObs      \* a mutation nobody looks at afterwards is not explored
        /\ \/ \E n \in Names : \E kind \in HistKinds : \E len \in 0..MaxLen :
